@@ -95,7 +95,7 @@ impl Prop for Months {
         Ok(Case { day, ns: gen::day_ns(u)?, off, n, op, datetime })
     }
     fn check(c: &Case, cx: &mut Cx) -> Verdict {
-        if !(cal::MIN_DAY..=cal::MAX_DAY).contains(&c.day) || !(0..86_400_000_000_000).contains(&c.ns) || c.op > 3 || c.off.abs() > 86_399 {
+        if !(cal::MIN_DAY..=cal::MAX_DAY).contains(&c.day) || !(0..86_400_000_000_000).contains(&c.ns) || c.op > 3 || c.off.unsigned_abs() > 86_399 {
             return Verdict::Skip("malformed case");
         }
         let late = c.datetime && c.off != 0 && (c.day < cal::MIN_DAY + 1 || c.day > cal::MAX_DAY - 1);
